@@ -7,6 +7,9 @@ import (
 	"encoding/json"
 	"flag"
 	"fmt"
+	"github.com/nyaruka/gocommon/urns"
+	"github.com/nyaruka/goflow/assets"
+	"github.com/nyaruka/goflow/flows/triggers"
 	"regexp"
 	"sort"
 	"strings"
@@ -267,6 +270,12 @@ func c19Redact(args []string) error {
 		}
 	}
 	if *queries {
+		// incoming messages built through the Go API (flows.NewMsgIn), whose URN need not be well formed: a display part with
+		// the syntax's own separators in it, a bare number without a scheme, a scheme alone - twins that differ in the
+		// identifying part only, under both policies
+		if err := c19ProgrammaticInputs(func(l *C19Line) { n++; lw.write(l.Src, l, func(string) {}) }); err != nil {
+			errs = append(errs, "programmatic inputs: "+err.Error())
+		}
 		res := qlResolver()
 		forms := []struct {
 			q     string
@@ -311,4 +320,72 @@ func livePath(p string) bool {
 		return !storedTemplates.MatchString(p) // these render stored results / the trigger's or resume's own copy of the data
 	}
 	return liveRoots.MatchString(p)
+}
+
+func c19ProgrammaticInputs(emit func(*C19Line)) error {
+	flow := M{"uuid": flowUUID(1), "name": "Flow 1", "spec_version": "13.6.0", "language": "eng", "type": "messaging", "nodes": []M{
+		{"uuid": nodeUUID(1, 1), "actions": []M{{"uuid": actionUUID(1, 1, 1), "type": "set_run_result", "name": "seen", "value": "@input.urn @input"}},
+			"router": M{"type": "switch", "operand": "@input.text", "wait": M{"type": "msg"}, "default_category_uuid": catUUID(1, 1, 1), "cases": []M{},
+				"categories": []M{{"uuid": catUUID(1, 1, 1), "name": "All", "exit_uuid": exitUUID(1, 1, 1)}}},
+			"exits": []M{{"uuid": exitUUID(1, 1, 1)}}}}}
+	sa, err := loadAssets(mustJSON(M{"flows": []M{flow}, "channels": []M{{"uuid": "57f1078f-88aa-46f4-a59a-948a5739c03d", "name": "Android", "address": "+17036975131",
+		"schemes": []string{"tel", "telegram"}, "roles": []string{"send", "receive"}, "country": "US"}}}))
+	if err != nil {
+		return err
+	}
+	shapes := [][2]string{{"telegram:12345678#Alice #1", "telegram:87654321#Bob ?2"}, {"12065551212", "12065559876"}, {"tel:+12065551212?id=1#a#b", "tel:+12065559876?id=2#c#d"},
+		{"telegram:", "telegram:"}, {"tel:+12065551212", "tel:+12065559876"}, {"x:y:z:12345", "x:y:z:67890"}}
+	for si, sh := range shapes {
+		for _, policy := range []string{"urns", "none"} {
+			var obs [2]map[string]string
+			for tw := 0; tw < 2; tw++ {
+				resetGenerators(1)
+				rp := envs.RedactionPolicyNone
+				if policy == "urns" {
+					rp = envs.RedactionPolicyURNs
+				}
+				env := envs.NewBuilder().WithRedactionPolicy(rp).WithDefaultCountry("US").Build()
+				contact, err := flows.ReadContact(sa, mustJSON(M{"uuid": contactUUID, "id": 1234, "name": "Bob", "language": "eng", "status": "active", "created_on": "2018-01-01T12:00:00Z", "urns": []string{}}), assets.IgnoreMissing)
+				if err != nil {
+					return err
+				}
+				msg := flows.NewMsgIn("c8005ee3-4628-4d76-be66-906352cb1935", urns.URN(sh[tw]), nil, "hi", nil)
+				trig := triggers.NewBuilder(env, assets.NewFlowReference(assets.FlowUUID(flowUUID(1)), "Flow 1"), contact).Msg(msg).Build()
+				var s flows.Session
+				var pan string
+				func() {
+					defer func() {
+						if r := recover(); r != nil {
+							pan = fmt.Sprint(r)
+						}
+					}()
+					s, _, err = newEngine(10, 10).NewSession(sa, trig)
+				}()
+				if pan != "" || err != nil || s == nil {
+					obs[tw] = map[string]string{"<failed>": pan + fmt.Sprint(err)}
+					continue
+				}
+				obs[tw] = observeContext(s)
+			}
+			// (what a malformed URN shows WITHOUT the policy is nobody's promise: only the well-formed pair is held to "visible")
+			line := &C19Line{Src: fmt.Sprintf("programmatic-input/%d/%s", si, policy), Kind: "walk", Policy: policy, NPaths: len(obs[0]), HasURNs: si == 4 && obs[0]["<failed>"] == "", NoName: false, DiffPaths: []string{}, ContactID: "1234"}
+			ps := make([]string, 0, len(obs[0]))
+			for p := range obs[0] {
+				ps = append(ps, p)
+			}
+			sort.Strings(ps)
+			for _, p := range ps {
+				v := obs[0][p]
+				if obs[1][p] != v {
+					line.NDiff++
+					if len(line.DiffPaths) < 4 {
+						line.DiffPaths = append(line.DiffPaths, fmt.Sprintf("%s: %.60q vs %.60q", p, v, obs[1][p]))
+					}
+				}
+			}
+			line.ContactDefault = obs[0]["tpl:@contact"]
+			emit(line)
+		}
+	}
+	return nil
 }
